@@ -166,6 +166,59 @@ func c13(c *Ctx) {
 			}
 		}
 		row("codecs.(*AV1Payloader).Payload", "new packet when SpatialID or TemporalID differs", cmpd["SpatialID"] && cmpd["TemporalID"], fmt.Sprintf("fields compared for inequality: %v", cmpd))
+		// ... and a difference in one id alone is enough: where the two comparisons are joined by a short-circuit
+		// operator (a phi with one comparison as an edge and a constant on the edge from the other comparison's
+		// branch), the constant must be true (`||`); `&&` puts false there. Another way of combining them (two
+		// separate ifs, a helper) has no such phi and is not decided.
+		idCmp := map[ssa.Value]bool{}
+		for _, b := range blocksWithCallees(fn) {
+			for _, in := range b.Instrs {
+				if bo, ok := in.(*ssa.BinOp); ok && bo.Op == token.NEQ {
+					if fx := loadedField(bo.X); (fx == "SpatialID" || fx == "TemporalID") && fx == loadedField(bo.Y) {
+						idCmp[bo] = true
+					}
+				}
+			}
+		}
+		joined, disj, where := 0, true, ""
+		for _, b := range blocksWithCallees(fn) {
+			for _, in := range b.Instrs {
+				ph, ok := in.(*ssa.Phi)
+				if !ok {
+					continue
+				}
+				hasCmp := false
+				for _, e := range ph.Edges {
+					if idCmp[e] {
+						hasCmp = true
+					}
+				}
+				if !hasCmp {
+					continue
+				}
+				for i, e := range ph.Edges {
+					k, isC := e.(*ssa.Const)
+					if !isC || k.Value == nil || i >= len(b.Preds) {
+						continue
+					}
+					pred := b.Preds[i]
+					br, isIf := pred.Instrs[len(pred.Instrs)-1].(*ssa.If)
+					if !isIf || !idCmp[br.Cond] {
+						continue
+					}
+					joined++
+					if k.Value.String() != "true" {
+						disj, where = false, p.Position(br.Cond.Pos())
+					}
+				}
+			}
+		}
+		if joined > 0 {
+			row("codecs.(*AV1Payloader).Payload", "a difference in SpatialID alone or in TemporalID alone starts a new packet (the comparisons are joined by ||)", disj,
+				"the comparison at "+where+" only counts together with the other one (&&)")
+		} else {
+			r.Infof("STRUCT.layersplit: the two layer-id comparisons are not joined by a short-circuit operator: the either-id clause is not decided")
+		}
 	}
 	minLenRule(c, []minLenRow{
 		{fn: "codecs.(*AV1Depacketizer).Unmarshal", want: []int{2}, minOnly: true, why: "aggregation header + >=1 octet"},
